@@ -27,7 +27,7 @@ ASSUMPTIONS = [
 ]
 TOLERANCES = {"bearing": "12 degrees (calibrated on the repaired tree: max 6.5 degrees over 785 asserted configurations with window mass >= 0.7; up to 38 degrees when only half of the footprint fits the domain and the rest wraps around; any convention error is >= 45 degrees)",
               "wind decomposition": "1e-12 relative"}
-BUDGET = {"quick": dict(examples=250, shards=1), "thorough": dict(examples=500, shards=16)}
+BUDGET = {"quick": dict(examples=400, shards=1), "thorough": dict(examples=1500, shards=16)}
 NO_SHRINK = {"quick": False}
 
 
